@@ -268,6 +268,7 @@ struct C19 : Scenario {
 				default: orig = rng.below(10000000); break;
 			}
 			if (sum_orig + orig >= (1ULL << 32)) orig = rng.below(1000);
+			if (sum_orig + orig >= (1ULL << 32)) orig = 0;   // (the total is within 1000 of 2^32 already: totals stay below 2^32 by assumption)
 			size_t dl = m.kind == 'f' ? rng.below(24) : 0;
 			// packed/original exactly half-way between two printed values (xx.x5 %), and just beside it
 			if (m.kind == 'f' && rng.chance(1, 10)) {
@@ -661,6 +662,7 @@ struct C18 : Scenario {
 			encode_unix_meta(n2, m.kind == 'l' ? 0120777 : -1, -1, -1, 1000000000, 0, false);
 			m = n2;
 		}
+		for (auto &m : p.members) if (m.os == 'K' && m.level == 2) m.os = 'k';   // (also for members just moved to level 2)
 		// (the tool does not check the results of creating its stream and reader: start-up under OOM is outside every listed property)
 		if (rng.chance(1, 4)) p.seti("afail", 3 + (int64_t) rng.below(60));
 		return p;
